@@ -1198,6 +1198,8 @@ DLLIMPORT int cfg_opt_setmulti(cfg_t *cfg, cfg_opt_t *opt, unsigned int nvalues,
 	old = *opt;
 	opt->nvalues = 0;
 	opt->values = NULL;
+	/* the annotation is not a value: keep it out of cfg_free_value()'s reach */
+	opt->comment = NULL;
 
 	for (i = 0; i < nvalues; i++) {
 		if (cfg_setopt(cfg, opt, values[i]))
@@ -1207,12 +1209,15 @@ DLLIMPORT int cfg_opt_setmulti(cfg_t *cfg, cfg_opt_t *opt, unsigned int nvalues,
 		cfg_free_value(opt);
 		opt->nvalues = old.nvalues;
 		opt->values = old.values;
+		opt->comment = old.comment;
 		opt->flags &= ~(CFGF_RESET | CFGF_MODIFIED);
 		opt->flags |= old.flags & (CFGF_RESET | CFGF_MODIFIED);
 
 		return CFG_FAIL;
 	}
 
+	opt->comment = old.comment;
+	old.comment = NULL;
 	cfg_free_value(&old);
 	opt->flags |= CFGF_MODIFIED;
 
